@@ -9,6 +9,8 @@
 (*                     dictionary and kept in a second slot (a snapshot:   *)
 (*                     later assignments to either do not touch the other);*)
 (*   SetDer(name, M)   assignment to the derived representation;           *)
+(*   Enumerate         vectorised evaluation driven by the free automaton    *)
+(*                     (both directions): a stuttering step;                 *)
 (*   Eval              evaluation of the word battery on both objects: a     *)
 (*                     stuttering step, enabled everywhere, whose result is  *)
 (*                     the table of the current state.                       *)
@@ -20,7 +22,8 @@
 EXTENDS Fox, Json
 
 CONSTANTS MaxSteps,   \* histories of at most this many calls
-          WordLen     \* words tabulated per state
+          WordLen,    \* words tabulated per state
+          Big         \* FALSE: small matrices; TRUE: large-entry matrices that are RELATIVELY close to each other
 
 VARIABLES gens, der, steps, last
 
@@ -28,14 +31,23 @@ S2 == <<<<0, -1>>, <<1, 0>>>>
 T2 == <<<<1, 1>>, <<0, 1>>>>
 D2 == <<<<1, 0>>, <<0, -1>>>>
 X2 == <<<<2, 1>>, <<1, 1>>>>
-Universe == {S2, T2, D2}
-DerUniverse == {X2, D2}
+\* T^n for n = 200000, 200001 and the inverse of the latter: re-assigning one over the other changes every
+\* entry by at most 1 part in 200000 (an assignment may not depend on how close the new value is to the
+\* stored one).  All are upper unipotent, so products of up to WordLen = 2 letters (also with S2) stay
+\* far inside TLC's 32-bit integers; kinds that leave the upper unipotent matrices are not used with them.
+BN == 200000
+TN == <<<<1, BN>>, <<0, 1>>>>
+TN1 == <<<<1, BN + 1>>, <<0, 1>>>>
+TN1m == <<<<1, 0 - (BN + 1)>>, <<0, 1>>>>
+Universe == IF Big THEN {TN, TN1, TN1m, S2} ELSE {S2, T2, D2}
+DerUniverse == IF Big THEN {TN, TN1} ELSE {X2, D2}
 Names == {"a", "A", "b", "B"}
 DerNames == {"a", "A"}
 N == 2
 
 K(kind) == [kind |-> kind, C |-> <<>>, m |-> 0]
-Kinds == {K("copy"), K("dual"), [kind |-> "conjugate", C |-> X2, m |-> 0], K("compose_id")}
+Kinds == IF Big THEN {K("copy"), K("compose_id")}
+         ELSE {K("copy"), K("dual"), [kind |-> "conjugate", C |-> X2, m |-> 0], K("compose_id")}
 
 Empty == [l \in {} |-> <<>>]
 NoDer == [kind |-> K("none"), gens |-> Empty]
@@ -74,22 +86,35 @@ Eval ==
   /\ UNCHANGED <<gens, der, steps>>
   /\ last' = [a |-> "eval"]
 
+\* rep.freely_reduced_elements(WordLen, with_words=True) and rep.automaton_accepted(free automaton, WordLen,
+\* with_words=True, start_state= / end_state= any vertex): the vectorised evaluation of many words at once.
+\* A query: both dictionaries unchanged; every returned pair (matrix, word) has matrix = Val(gens, word), whether
+\* the word was built by prepending letters (start direction) or appending them (end direction), and the
+\* default route returns exactly the freely reduced words (RedWords), each once.
+Enumerate ==
+  /\ DOMAIN gens # {}
+  /\ UNCHANGED <<gens, der, steps>>
+  /\ last' = [a |-> "enumerate"]
+
 Next == \/ /\ steps < MaxSteps
            /\ steps' = steps + 1
            /\ \/ \E name \in Names, M \in Universe : SetGen(name, M)
               \/ \E k \in Kinds : Derive(k)
               \/ \E name \in DerNames, M \in DerUniverse : SetDer(name, M)
         \/ Eval
+        \/ Enumerate
 
 (***************************************************************************)
 (* Invariants                                                              *)
 (***************************************************************************)
+\* (with the large matrices a product of three letters can leave the 32-bit integers)
+LawLen == IF Big THEN WordLen ELSE WordLen + 1
 DictOK(D) ==
   /\ DOMAIN D \subseteq Names
   /\ InverseCoherent(D, N)
   /\ \A l \in DOMAIN D : IsMat(D[l], N, N) /\ Unimodular(D[l])
-  /\ HomLaw(D, N, WordLen + 1)
-  /\ ReduceLaw(D, N, WordLen + 1)
+  /\ HomLaw(D, N, LawLen)
+  /\ ReduceLaw(D, N, LawLen)
   /\ Val(D, N, <<>>) = IdM(N)
 
 Coherent == /\ DictOK(gens) /\ DictOK(der.gens)
@@ -100,6 +125,14 @@ Coherent == /\ DictOK(gens) /\ DictOK(der.gens)
 LastWins ==
   \A l \in DOMAIN gens : gens[l] \in Universe \/ gens[Inv(l)] \in Universe
 
+\* evaluation by prepending letters and by appending letters agree with Val (the two directions of the
+\* vectorised recursion)
+RedWords(D) == {wd \in WordsUpTo(DOMAIN D, WordLen) : IsReduced(wd)}
+BothDirections ==
+  \A wd \in RedWords(gens) : Len(wd) >= 1 =>
+     /\ Val(gens, N, wd) = MMul(gens[Head(wd)], Val(gens, N, Tail(wd)))
+     /\ Val(gens, N, wd) = MMul(Val(gens, N, SubSeq(wd, 1, Len(wd) - 1)), gens[wd[Len(wd)]])
+
 (***************************************************************************)
 (* Emission                                                                *)
 (***************************************************************************)
@@ -107,7 +140,7 @@ Key(g, d) == [gens |-> g, dkind |-> d.kind.kind, dgens |-> d.gens]
 Table(D) == {<<wd, Val(D, N, wd)>> : wd \in WordsUpTo(DOMAIN D, WordLen)}
 FoxTable(D) == {<<wd, [g \in LowerOf(D) |-> DMat(D, N, g, wd)]>> : wd \in WordsUpTo(DOMAIN D, WordLen) \ {<<>>}}
 EmitObs == PrintT("OBS " \o ToJson([key |-> Key(gens, der), vals |-> Table(gens), dvals |-> Table(der.gens),
-                                     fox |-> FoxTable(gens)]))
+                                     fox |-> FoxTable(gens), red |-> RedWords(gens)]))
 Emit == PrintT("EMIT " \o ToJson([from |-> Key(gens, der), act |-> last', to |-> Key(gens', der')]))
 View == <<gens, der, steps>>
 =============================================================================
